@@ -56,6 +56,48 @@ class SumVal:
         return "sum(" + ", ".join(map(repr, self.terms)) + ")"
 
 
+@dataclass(frozen=True)
+class TypeV:
+    """a type as the grammar presents it: kind in builtin | list | tuple | annotated | union | class"""
+    kind: str
+    name: str
+    args: tuple = ()
+    meta: Any = None
+
+    def __repr__(self):
+        return f"<type {self.name}>"
+
+
+class Obj:
+    """an instance of a repository dataclass: mutable fields"""
+    def __init__(self, cls: str, fields: dict):
+        self.cls, self.fields = cls, fields
+
+    def __repr__(self):
+        return f"{self.cls}({', '.join(f'{k}={v!r}' for k, v in self.fields.items())})"
+
+
+BUILTIN_TYPES = {n: TypeV("builtin", n) for n in ("int", "float", "bool", "str", "list", "tuple", "dict", "set")}
+TYPING_UNION = Sym("typing.Union")
+TYPING_ANNOTATED = Sym("typing.Annotated")
+
+
+def type_attr(t: TypeV, attr: str) -> Any:
+    """what the typing runtime exposes on a type of this form (None = attribute absent)"""
+    if attr == "__metadata__":
+        return [t.meta] if t.kind == "annotated" else None
+    if attr == "__origin__":
+        return {"list": BUILTIN_TYPES["list"], "tuple": BUILTIN_TYPES["tuple"], "union": TYPING_UNION,
+                "annotated": t.args[0] if t.args else UNKNOWN}.get(t.kind)
+    if attr == "__args__":
+        return list(t.args) if t.kind in ("list", "tuple", "annotated", "union") else None
+    if attr == "__name__":
+        return t.name if t.kind in ("builtin", "class") else None
+    if attr in ("__init__", "__module__", "mro", "__class__"):
+        return UNKNOWN
+    return None
+
+
 class LocalFn:
     def __init__(self, node, env, owner):
         self.node, self.env, self.owner = node, env, owner
@@ -176,11 +218,17 @@ class Interp:
             for t in (st.targets if isinstance(st, ast.Assign) else [st.target]):
                 self.assign(t, val, env, st)
         elif isinstance(st, ast.AugAssign):
-            self.ev(st.value, env, depth)
+            rhs = self.ev(st.value, env, depth)
+            cur = self.ev(st.target, env, depth) if isinstance(st.target, (ast.Name, ast.Attribute)) else UNKNOWN
+            new = UNKNOWN
+            if _is_num(cur) and _is_num(rhs) and isinstance(st.op, (ast.Add, ast.Sub)):
+                new = cur + rhs if isinstance(st.op, ast.Add) else cur - rhs
+            elif isinstance(cur, list) and isinstance(rhs, list) and isinstance(st.op, ast.Add):
+                new = cur + rhs
             if isinstance(st.target, ast.Name):
-                env[st.target.id] = UNKNOWN
+                env[st.target.id] = new
             else:
-                self.assign(st.target, UNKNOWN, env, st)
+                self.assign(st.target, new, env, st)
         elif isinstance(st, ast.If):
             if self.truthy(self.ev(st.test, env, depth)):
                 self.block(st.body, env, depth)
@@ -240,6 +288,10 @@ class Interp:
             vals = val if isinstance(val, (list, tuple)) and len(val) == len(t.elts) else [UNKNOWN] * len(t.elts)
             for el, v in zip(t.elts, vals):
                 self.assign(el, v, env, node)
+        elif isinstance(t, ast.Attribute) and isinstance(self.ev(t.value, env, 9), Obj):
+            o = self.ev(t.value, env, 9)
+            o.fields[t.attr] = val
+            self.trace.append(Effect("store", f"{o.cls}.{t.attr}", (val,), node=node, fn=self.fn_stack[-1], recv=o))
         elif isinstance(t, ast.Attribute):
             path = _path(t)
             if path:
@@ -252,7 +304,13 @@ class Interp:
                 env[path] = val
         elif isinstance(t, ast.Subscript):
             path = _path(t.value)
-            self.trace.append(Effect("store", (path or "?") + "[]", (val,), node=node, fn=self.fn_stack[-1]))
+            base = self.ev(t.value, env, 9)
+            key = self.ev(t.slice, env, 9) if not isinstance(t.slice, ast.Slice) else UNKNOWN
+            if isinstance(base, dict) and key is not UNKNOWN:
+                base[self._hashable(key)] = val
+            elif isinstance(base, list) and isinstance(key, int) and not isinstance(key, bool) and -len(base) <= key < len(base):
+                base[key] = val
+            self.trace.append(Effect("store", (path or "?") + "[]", (key, val), node=node, fn=self.fn_stack[-1], recv=base))
 
     # ------------------------------------------------------------------ expressions
     def truthy(self, v: Any) -> bool:
@@ -275,12 +333,25 @@ class Interp:
         if isinstance(e, ast.Constant):
             return e.value
         if isinstance(e, ast.Name):
-            return env.get(e.id, UNKNOWN)
+            if e.id in env:
+                return env[e.id]
+            if e.id in BUILTIN_TYPES:
+                return BUILTIN_TYPES[e.id]
+            if e.id in ("Union", "Annotated") and self.fn_stack:
+                full = self.prog.resolve_name(self.fn_stack[-1].module, e.id)
+                if full in ("typing.Union", "typing.Annotated"):
+                    return TYPING_UNION if e.id == "Union" else TYPING_ANNOTATED
+            return UNKNOWN
         if isinstance(e, ast.Attribute):
             p = _path(e)
             if p is not None and p in env:
                 return env[p]
             base = self.ev(e.value, env, depth)
+            if isinstance(base, Obj):
+                return base.fields.get(e.attr, UNKNOWN)
+            if isinstance(base, TypeV):
+                v = type_attr(base, e.attr)
+                return UNKNOWN if v is None else v
             if isinstance(base, Sym):
                 return Sym(f"{base.tag}.{e.attr}")
             return UNKNOWN
@@ -338,14 +409,24 @@ class Interp:
             return last if isinstance(last, (bool, SVal, SumVal, LocalFn, Sym, dict, list)) else True
         if isinstance(e, ast.IfExp):
             return self.ev(e.body if self.truthy(self.ev(e.test, env, depth)) else e.orelse, env, depth)
+        if isinstance(e, ast.Compare) and len(e.ops) > 1:
+            left = e.left
+            for op, rhs in zip(e.ops, e.comparators):
+                one = ast.copy_location(ast.Compare(left=left, ops=[op], comparators=[rhs]), e)
+                if not self.truthy(self.ev(one, env, depth)):
+                    return False
+                left = rhs
+            return True
         if isinstance(e, ast.Compare) and len(e.ops) == 1:
             l, r = self.ev(e.left, env, depth), self.ev(e.comparators[0], env, depth)
             op = e.ops[0]
             if isinstance(op, (ast.Is, ast.IsNot)):
                 if l is UNKNOWN or r is UNKNOWN:
                     return UNKNOWN
-                same = (l is r) or (l == r and not isinstance(l, list))
+                same = (l is r) or (not isinstance(l, (list, dict, set, Obj)) and not isinstance(r, (list, dict, set, Obj)) and l == r)
                 return same if isinstance(op, ast.Is) else not same
+            if isinstance(op, (ast.Eq, ast.NotEq)) and isinstance(l, TypeV) and isinstance(r, TypeV):
+                return (l == r) if isinstance(op, ast.Eq) else (l != r)
             if isinstance(op, (ast.Eq, ast.NotEq)) and not (l is UNKNOWN or r is UNKNOWN) and not isinstance(l, Sym) and not isinstance(r, Sym):
                 return (l == r) if isinstance(op, ast.Eq) else (l != r)
             if isinstance(op, (ast.Lt, ast.LtE, ast.Gt, ast.GtE)) and isinstance(l, (int, float)) and isinstance(r, (int, float)) \
@@ -369,11 +450,15 @@ class Interp:
             for a, b in ((l, r), (r, l)):
                 if isinstance(a, SVal) and isinstance(b, (int, float)) and not isinstance(b, bool) and b != 0:
                     return SVal(a.sign * (1 if b > 0 else -1), a.tag)
+            if _is_num(l) and _is_num(r):
+                return l * r
             return UNKNOWN
-        if isinstance(e, ast.BinOp) and isinstance(e.op, ast.Add):
+        if isinstance(e, ast.BinOp) and isinstance(e.op, (ast.Add, ast.Sub)):
             l, r = self.ev(e.left, env, depth), self.ev(e.right, env, depth)
-            if isinstance(l, list) and isinstance(r, list):
+            if isinstance(l, list) and isinstance(r, list) and isinstance(e.op, ast.Add):
                 return l + r
+            if _is_num(l) and _is_num(r):
+                return l + r if isinstance(e.op, ast.Add) else l - r
             return UNKNOWN
         if isinstance(e, (ast.ListComp, ast.GeneratorExp)):
             return self.comp(e, env, depth)
@@ -470,6 +555,36 @@ class Interp:
                 return set(self._hashable(x) for x in args[0])
             if nm == "isinstance" and len(c.args) == 2:
                 return _isinstance(args[0], c.args[1])
+            if nm == "hasattr" and len(args) == 2 and isinstance(args[1], str):
+                if isinstance(args[0], TypeV):
+                    return type_attr(args[0], args[1]) is not None
+                if isinstance(args[0], Obj):
+                    return args[1] in args[0].fields
+                return UNKNOWN
+            if nm == "get_origin" and len(args) == 1 and isinstance(args[0], TypeV):
+                t_ = args[0]
+                return {"list": BUILTIN_TYPES["list"], "tuple": BUILTIN_TYPES["tuple"], "union": TYPING_UNION,
+                        "annotated": TYPING_ANNOTATED}.get(t_.kind)
+            if nm == "range" and 1 <= len(args) <= 2 and all(isinstance(a, int) and not isinstance(a, bool) for a in args) \
+                    and (args[-1] - (args[0] if len(args) == 2 else 0)) <= 8:
+                return list(range(*args))
+            if nm == "tuple" and len(args) == 1 and isinstance(args[0], list):
+                return list(args[0])
+            # a repository dataclass: an object with fields
+            if c.func.id not in env and self.fn_stack:
+                full = self.prog.resolve_name(self.fn_stack[-1].module, c.func.id)
+                ci = self.prog.classes.get(full) if full else None
+                if ci is not None and _is_dataclass(ci):
+                    names = _dataclass_fields(self.prog, ci)
+                    fields = {n_: UNKNOWN for n_ in names}
+                    for n_, v in zip(names, args):
+                        fields[n_] = v
+                    for k, v in kwargs.items():
+                        fields[k] = v
+                    o = Obj(ci.name, fields)
+                    if ci.name in self.record_calls:
+                        pass
+                    return o
             if nm == "enumerate" and args and isinstance(args[0], list):
                 return [[i, x] for i, x in enumerate(args[0])]
             if nm == "zip" and all(isinstance(a, list) for a in args) and args:
@@ -582,11 +697,38 @@ def _install():
     Interp.prelude_len = 0
 
 
-def _copy_env(env: dict) -> dict:
-    out = {}
-    for k, v in env.items():
-        out[k] = list(v) if isinstance(v, list) else set(v) if isinstance(v, set) else dict(v) if isinstance(v, dict) else v
+def _is_num(v: Any) -> bool:
+    return isinstance(v, (int, float)) and not isinstance(v, bool)
+
+
+def _is_dataclass(ci) -> bool:
+    from .frontend import decorators
+    return any(d.split(".")[-1] == "dataclass" for d in decorators(ci.node))
+
+
+def _dataclass_fields(prog, ci) -> list[str]:
+    out = []
+    for b in reversed(prog.mro(ci)):
+        for st in b.node.body:
+            if isinstance(st, ast.AnnAssign) and isinstance(st.target, ast.Name) and st.target.id not in out:
+                out.append(st.target.id)
     return out
+
+
+def _copy_val(v: Any) -> Any:
+    if isinstance(v, list):
+        return [_copy_val(x) for x in v]
+    if isinstance(v, set):
+        return set(v)
+    if isinstance(v, dict):
+        return {k: _copy_val(x) for k, x in v.items()}
+    if isinstance(v, Obj):
+        return Obj(v.cls, {k: _copy_val(x) for k, x in v.fields.items()})
+    return v
+
+
+def _copy_env(env: dict) -> dict:
+    return {k: _copy_val(v) for k, v in env.items()}
 
 
 _BUILTIN_TYPES = {"list": list, "bool": bool, "int": int, "float": float, "dict": dict, "str": str, "set": set, "tuple": tuple}
